@@ -242,6 +242,12 @@ func runBatch(r *Run, batch int, dir string) *BatchResult {
 			os.Remove(stderrPath)
 			break
 		}
+		if completed && r.Flavor == "race" && werr != nil && strings.Contains(werr.Error(), "exit status 66") {
+			// the race detector's exit code after a run that reported races: the batch itself
+			// ran to its end, the reports are read from the GORACE log below
+			res.Completed = true
+			break
+		}
 		eb, _ := os.ReadFile(stderrPath)
 		stderr := string(eb)
 		if timedOut {
